@@ -1,7 +1,7 @@
 (* Concurrent senders on one connection (Model/CodecSend.v): under every schedule the byte
    stream is the concatenation of whole frames in lock order, frame numbers included. *)
 From Coq Require Import ZArith List Bool Lia.
-From TD Require Import Lib.GoSem Model.Codec Model.CodecSend Proof.Codec Proof.CodecRT.
+From TD Require Import Lib.Bytes Lib.GoSem Model.Codec Model.CodecSend Proof.Codec Proof.CodecRT.
 Import ListNotations.
 Open Scope Z_scope.
 
@@ -22,11 +22,22 @@ Definition pending (st : state) : bytes :=
 
 Definition inv (st : state) : Prop :=
   nseq st = seq0 + Z.of_nat (length (log st)) /\
-  write_all crc c seq0 rnd (map snd (log st)) = Ok (stream st ++ pending st) /\
-  (forall i, sent_by i (log st) ++ queue st i = q0 i).
+  (forall i, sent_by i (log st) ++ queue st i = q0 i) /\
+  match intact st with
+  | None =>
+    write_all crc c seq0 rnd (map snd (log st)) = Ok (stream st ++ pending st) /\
+    (forall j chs, holder st = Some (j, chs) ->
+       exists l' p w0 donep, log st = l' ++ [(j, p)] /\
+                             write_all crc c seq0 rnd (map snd l') = Ok w0 /\ stream st = w0 ++ donep)
+  | Some n =>
+    (n <= length (log st))%nat /\
+    exists w tail, write_all crc c seq0 rnd (firstn n (map snd (log st))) = Ok w /\ stream st = w ++ tail
+  end.
 
 Lemma inv_init : inv (init q0 seq0).
-Proof. unfold inv, init, pending, sent_by; cbn. repeat split; lia. Qed.
+Proof.
+  unfold inv, init, pending, sent_by; cbn. repeat split; try lia. intros j chs H; discriminate.
+Qed.
 
 Lemma sent_by_snoc i j p l :
   sent_by i (l ++ [(j, p)]) = sent_by i l ++ (if Nat.eqb j i then [p] else []).
@@ -34,30 +45,61 @@ Proof.
   unfold sent_by. rewrite filter_app, map_app. cbn. destruct (Nat.eqb j i); reflexivity.
 Qed.
 
+Lemma firstn_snoc_le {A} n (l : list A) x : (n <= length l)%nat -> firstn n (l ++ [x]) = firstn n l.
+Proof.
+  intros H. rewrite firstn_app. replace (n - length l)%nat with 0%nat by lia. cbn. apply app_nil_r.
+Qed.
+
 Lemma step_inv st e st' : inv st -> step crc c rnd split st e = Some st' -> inv st'.
 Proof.
-  intros (Hn & Hw & Hq) Hs. destruct e as [i|i|i]; cbn [step] in Hs.
-  - destruct (holder st) as [[j chs]|] eqn:Hh; [discriminate|].
+  intros (Hn & Hq & Hi) Hs. destruct e as [i|i|i|i n]; cbn [step] in Hs.
+  - (* Acquire *)
+    destruct (holder st) as [[j chs]|] eqn:Hh; [discriminate|].
     destruct (queue st i) as [|p t] eqn:Hqi; [discriminate|].
     assert (In p (q0 i)) as Hin by (rewrite <- (Hq i), Hqi, in_app_iff; right; left; reflexivity).
     destruct (writable i p (nseq st) (rnd (nseq st)) Hin) as (f & Hf). rewrite Hf in Hs.
-    inversion Hs; subst st'; clear Hs. unfold inv, pending in *; cbn [nseq log stream holder queue].
-    rewrite Hh in Hw. rewrite app_nil_r in Hw.
+    inversion Hs; subst st'; clear Hs. unfold inv, pending in *; cbn [nseq log stream holder queue intact].
     split; [rewrite app_length; cbn; lia|]. split.
-    + rewrite map_app. cbn [map snd]. rewrite (write_all_app crc c rnd _ _ p _ Hw).
-      rewrite map_length, <- Hn, Hf. cbn [bind]. rewrite split_ok. reflexivity.
-    + intros k. rewrite sent_by_snoc. unfold upd. rewrite Nat.eqb_sym.
+    { intros k. rewrite sent_by_snoc. unfold upd. rewrite Nat.eqb_sym.
       destruct (Nat.eqb_spec k i) as [->|Hk].
-      * rewrite <- app_assoc. cbn [app]. rewrite <- Hqi. apply Hq.
-      * rewrite app_nil_r. apply Hq.
-  - destruct (holder st) as [[j [|ch rest]]|] eqn:Hh; try discriminate.
+      - rewrite <- app_assoc. cbn [app]. rewrite <- Hqi. apply Hq.
+      - rewrite app_nil_r. apply Hq. }
+    destruct (intact st) as [m|].
+    + destruct Hi as (Hm & w & tail & Hw & Hst). split; [rewrite app_length; lia|].
+      exists w, tail. rewrite map_app. cbn [map snd]. rewrite firstn_snoc_le by (rewrite map_length; exact Hm). auto.
+    + destruct Hi as (Hw & _). rewrite Hh, app_nil_r in Hw. split.
+      * rewrite map_app. cbn [map snd]. rewrite (write_all_app crc c rnd _ _ p _ Hw).
+        rewrite map_length, <- Hn, Hf. cbn [bind]. rewrite split_ok. reflexivity.
+      * intros j chs E. inversion E; subst. exists (log st), p, (stream st), []. rewrite app_nil_r. auto.
+  - (* WriteChunk *)
+    destruct (holder st) as [[j [|ch rest]]|] eqn:Hh; try discriminate.
     destruct (Nat.eqb i j); [|discriminate].
-    inversion Hs; subst st'; clear Hs. unfold inv, pending in *; cbn [nseq log stream holder queue].
-    rewrite Hh in Hw. cbn [concat] in Hw. rewrite <- app_assoc. auto.
-  - destruct (holder st) as [[j [|ch rest]]|] eqn:Hh; try discriminate.
+    inversion Hs; subst st'; clear Hs. unfold inv, pending in *; cbn [nseq log stream holder queue intact].
+    split; [exact Hn|]. split; [exact Hq|].
+    destruct (intact st) as [m|].
+    + destruct Hi as (Hm & w & tail & Hw & Hst). split; [exact Hm|]. exists w, (tail ++ ch). rewrite Hst, app_assoc. auto.
+    + destruct Hi as (Hw & Hb). rewrite Hh in Hw. cbn [concat] in Hw. split; [rewrite <- app_assoc; exact Hw|].
+      intros j' chs E. destruct (Hb j (ch :: rest) eq_refl) as (l' & p & w0 & dn & A & B & C).
+      inversion E; subst j' chs. exists l', p, w0, (dn ++ ch). rewrite C, app_assoc. auto.
+  - (* Release *)
+    destruct (holder st) as [[j [|ch rest]]|] eqn:Hh; try discriminate.
     destruct (Nat.eqb i j); [|discriminate].
-    inversion Hs; subst st'; clear Hs. unfold inv, pending in *; cbn [nseq log stream holder queue].
-    rewrite Hh in Hw. auto.
+    inversion Hs; subst st'; clear Hs. unfold inv, pending in *; cbn [nseq log stream holder queue intact].
+    split; [exact Hn|]. split; [exact Hq|].
+    destruct (intact st) as [m|]; [exact Hi|]. destruct Hi as (Hw & _). rewrite Hh in Hw. split; [exact Hw|].
+    intros j' chs E; discriminate.
+  - (* WriteFail *)
+    destruct (holder st) as [[j [|ch rest]]|] eqn:Hh; try discriminate.
+    destruct (Nat.eqb i j); [|discriminate].
+    inversion Hs; subst st'; clear Hs. unfold inv, pending in *; cbn [nseq log stream holder queue intact].
+    split; [exact Hn|]. split; [exact Hq|].
+    destruct (intact st) as [m|].
+    + destruct Hi as (Hm & w & tail & Hw & Hst). split; [exact Hm|]. exists w, (tail ++ firstn n ch). rewrite Hst, app_assoc. auto.
+    + destruct Hi as (_ & Hb). destruct (Hb j (ch :: rest) eq_refl) as (l' & p & w0 & dn & A & B & C).
+      rewrite A, app_length. cbn [length]. replace (pred (length l' + 1)) with (length l') by lia.
+      split; [lia|]. exists w0, (dn ++ firstn n ch).
+      rewrite map_app, firstn_app, map_length, Nat.sub_diag. cbn [firstn]. rewrite app_nil_r.
+      rewrite <- (map_length snd l'), firstn_all. rewrite C, app_assoc. auto.
 Qed.
 
 Lemma run_inv es : forall st st', inv st -> run crc c rnd split st es = Some st' -> inv st'.
@@ -68,16 +110,27 @@ Proof.
     eapply IH; [eapply step_inv; eauto|exact Hr].
 Qed.
 
-(* Every schedule: whenever the mutex is free, the connection carries exactly the frames of
-   the successful Sends, whole, in lock order and numbered consecutively; each sender's
-   payloads appear in its program order. *)
+(* Every schedule in which no conn.Write has failed: whenever the mutex is free, the connection
+   carries exactly the frames of the Sends, whole, in lock order and numbered consecutively;
+   each sender's payloads appear in its program order. *)
 Lemma send_atomic es st :
-  run crc c rnd split (init q0 seq0) es = Some st -> holder st = None ->
+  run crc c rnd split (init q0 seq0) es = Some st -> holder st = None -> intact st = None ->
   write_all crc c seq0 rnd (map snd (log st)) = Ok (stream st) /\
   (forall i, sent_by i (log st) ++ queue st i = q0 i).
 Proof.
-  intros Hr Hh. destruct (run_inv es _ _ inv_init Hr) as (_ & Hw & Hq).
-  unfold pending in Hw. rewrite Hh, app_nil_r in Hw. split; assumption.
+  intros Hr Hh Hi. destruct (run_inv es _ _ inv_init Hr) as (_ & Hq & Hw).
+  rewrite Hi in Hw. destruct Hw as (Hw & _). unfold pending in Hw. rewrite Hh, app_nil_r in Hw. split; assumption.
+Qed.
+
+(* Every schedule whatsoever (any state, mutex held or not): after a first failed conn.Write
+   tore frame number n, the n frames before it are still on the wire, whole and in lock order,
+   at the head of the stream.  Nothing is claimed about what follows the torn frame. *)
+Lemma send_until_failure es st n :
+  run crc c rnd split (init q0 seq0) es = Some st -> intact st = Some n ->
+  (n <= length (log st))%nat /\
+  exists w tail, write_all crc c seq0 rnd (firstn n (map snd (log st))) = Ok w /\ stream st = w ++ tail.
+Proof.
+  intros Hr Hi. destruct (run_inv es _ _ inv_init Hr) as (_ & _ & Hw). rewrite Hi in Hw. exact Hw.
 Qed.
 
 End Send.
@@ -89,15 +142,15 @@ Lemma senders_delivered (crc : bytes -> Z) (c : codec) (rnd : Z -> bytes) (split
   (forall i, length (rnd i) = 4%nat) ->
   (forall f, concat (split f) = f) ->
   (forall i p, In p (q0 i) -> frame_ok c p) ->
-  run crc c rnd split (init q0 seq0) es = Some st -> holder st = None ->
+  run crc c rnd split (init q0 seq0) es = Some st -> holder st = None -> intact st = None ->
   (length (log st) < fuel)%nat ->
   read_stream crc c seq0 fuel (stream st) = (map snd (log st), StopErr EEof) /\
   (forall i, sent_by i (log st) ++ queue st i = q0 i).
 Proof.
-  intros Hcrc Hrnd Hsplit Hok Hrun Hfree Hfuel.
+  intros Hcrc Hrnd Hsplit Hok Hrun Hfree Hint Hfuel.
   assert (forall i p seq r, In p (q0 i) -> exists f, write_c crc c seq r p = Ok f) as Hwr.
   { intros i p seq r Hin. destruct (Hok i p Hin) as (Hs & _ & Hf). apply (write_ok_iff_fits crc c p seq r Hs); exact Hf. }
-  destruct (send_atomic crc c rnd split Hsplit q0 seq0 Hwr es st Hrun Hfree) as (Hw & Hq).
+  destruct (send_atomic crc c rnd split Hsplit q0 seq0 Hwr es st Hrun Hfree Hint) as (Hw & Hq).
   split; [|exact Hq].
   assert (Forall (frame_ok c) (map snd (log st))) as Hall.
   { apply Forall_forall. intros p Hin. apply in_map_iff in Hin. destruct Hin as ([i p'] & E & Hin); cbn in E; subst p'.
@@ -106,4 +159,34 @@ Proof.
   destruct (stream_roundtrip crc Hcrc c rnd Hrnd (map snd (log st)) seq0 fuel Hall ltac:(rewrite map_length; exact Hfuel))
     as (w & Hw' & Hr).
   rewrite Hw in Hw'. apply ok_inj in Hw'. subst w. exact Hr.
+Qed.
+
+(* ... and when a conn.Write failed: the receiver still reads the n frames sent before the torn
+   one, in lock order; what it reads afterwards ([tail]) is unspecified. *)
+Lemma senders_until_failure (crc : bytes -> Z) (c : codec) (rnd : Z -> bytes) (split : bytes -> list bytes)
+      (q0 : nat -> list bytes) (seq0 : Z) es st n fuel :
+  (forall x, 0 <= crc x < 2 ^ 32) ->
+  (forall i, length (rnd i) = 4%nat) ->
+  (forall f, concat (split f) = f) ->
+  (forall i p, In p (q0 i) -> frame_ok c p) ->
+  run crc c rnd split (init q0 seq0) es = Some st -> intact st = Some n ->
+  exists tail,
+    read_stream crc c seq0 (n + fuel) (stream st) =
+    (firstn n (map snd (log st)) ++ fst (read_stream crc c (seq0 + Z.of_nat n) fuel tail),
+     snd (read_stream crc c (seq0 + Z.of_nat n) fuel tail)).
+Proof.
+  intros Hcrc Hrnd Hsplit Hok Hrun Hint.
+  assert (forall i p seq r, In p (q0 i) -> exists f, write_c crc c seq r p = Ok f) as Hwr.
+  { intros i p seq r Hin. destruct (Hok i p Hin) as (Hs & _ & Hf). apply (write_ok_iff_fits crc c p seq r Hs); exact Hf. }
+  destruct (run_inv crc c rnd split Hsplit q0 seq0 Hwr es _ _ (inv_init crc c rnd q0 seq0) Hrun) as (_ & Hq & Hw).
+  rewrite Hint in Hw. destruct Hw as (Hn & w & tail & Hw & Hst).
+  assert (Forall (frame_ok c) (firstn n (map snd (log st)))) as Hall.
+  { apply Forall_forall. intros p Hin. apply in_firstn_in in Hin. apply in_map_iff in Hin.
+    destruct Hin as ([i p'] & E & Hin); cbn in E; subst p'.
+    apply (Hok i). rewrite <- (Hq i), in_app_iff. left. unfold sent_by.
+    apply in_map_iff. exists (i, p); split; [reflexivity|]. apply filter_In; split; [exact Hin|cbn; apply Nat.eqb_refl]. }
+  assert (length (firstn n (map snd (log st))) = n) as Hl by (rewrite firstn_length, map_length; lia).
+  destruct (read_stream_frames crc Hcrc c rnd Hrnd (firstn n (map snd (log st))) seq0 tail fuel Hall) as (w' & Hw' & Hr).
+  rewrite Hw in Hw'. apply ok_inj in Hw'. subst w'. rewrite Hl in Hr.
+  exists tail. rewrite Hst. exact Hr.
 Qed.
